@@ -52,18 +52,22 @@ Proof. exact undo_command_total. Qed.
 Print Assumptions C17_undo_never_panics.
 
 (* NO COMMAND PANICS. J s: the cursor is on a character boundary, the undo stack is a valid edit script to the
-   current text, the kill ring is consistent, the saved line is valid. From any such state, executing ANY command --
-   every motion, kill, yank, transposition, case change, indent, history move and search, undo, accept, every
-   Movement / count / word definition -- never reaches a Panic of the model (no slice off a character boundary,
-   no arithmetic underflow, no unwrap of None, no unreachable!()) and leaves a state satisfying J again.
-   A yank-pop additionally needs what the main loop guarantees (commands in between reset the ring): the yank
-   the ring remembers still ends at the cursor. *)
+   current text, the kill ring is consistent, the saved line is valid, the buffer may grow. From any such state,
+   executing ANY command -- every motion, kill, yank, yank-pop, transposition, case change, indent, history move and
+   search, undo, accept, every Movement / count / word definition -- never reaches a Panic of the model (no slice off
+   a character boundary, no arithmetic underflow, no unwrap of None, no unreachable!()) and leaves a state
+   satisfying J again. Hence any sequence of commands. *)
 Theorem C17_execute_never_panics :
   forall (U : UData) (cfg : config) (c : cmd) (s : est),
-  J s -> (c = CYankPop -> yank_ok s) ->
-  match execute U cfg c s with EPanic => False | EOk _ s' => J s' | _ => True end.
+  J s -> match execute U cfg c s with EPanic => False | EOk _ s' => J s' | _ => True end.
 Proof. exact execute_never_panics. Qed.
 Print Assumptions C17_execute_never_panics.
+
+Theorem C17_commands_never_panic :
+  forall (U : UData) (cfg : config) (cs : list cmd) (s : est),
+  J s -> match exec_all U cfg cs s with EPanic => False | EOk _ s' => J s' | _ => True end.
+Proof. exact commands_never_panic. Qed.
+Print Assumptions C17_commands_never_panic.
 
 (* READING A COMMAND NEVER PANICS: from a state satisfying J (and, in vi mode, a non-negative pending count), for
    EVERY input stream, chunking and timeout setting, either mode, any custom bindings: decoding the next key,
